@@ -370,7 +370,7 @@ pub fn run(ctx: &RunCtx) -> PropResult {
     PropResult {
         report,
         level: "exploration",
-        rule: "Cross-version differential over a committed corpus: 15 directories written by the pinned tree (8fcb7aa, hooks off): 3 with key sizes 32 / 128 / 8 and timestamps from {0, 1, 3, 2^33+5, 2^33+6, u64::MAX-1, u64::MAX}, 9 small ones with key sizes 4/8/33, bloom none / 100-bit / 1237-bit / 80 000-bit, group sizes 2-8, 2-4 blobs, deletion markers, metadata, values across both write-path thresholds, and 3 'tree' directories (key sizes 8/33/400, 245-533 records over 2-3 blobs) whose index files have one to three levels of inner B+tree nodes; each with expected.json recording every answer the pinned code gave (read, contains, read_all_with_deletion_marker with every entry loaded, read_with x 3 metas, counts). Enumerated exhaustively: every subset of removed index files x eager/lazy init; opening with each other key size (with and without index files); opening with ANOTHER bloom configuration than the files were written with (off <-> on, other size), optionally writing and closing group-size + 2 new blobs under it and reopening lazily - every recorded answer must still hold; version bump of every blob header; version bump of every index header. Oracle: answers equal expected.json for every present/absent index combination - with the filters as loaded and again after off-loading the bloom buffers (level 0, then all levels), so that in-file filter probing of pinned index files is exercised - and after an index-version bump (the index is regenerated); index files rebuilt by the current code are byte-identical to the ones the pinned code wrote; a bumped blob version makes init fail; another key size never yields a successful read (init error, or everything quarantined with records_count 0). Non-trivial = at least one index removed or a mutation applied. distinct = FNV hash of the serialized case; the enumeration is complete for this corpus.".into(),
+        rule: "Cross-version differential over a committed corpus: 20 directories written by the pinned tree (8fcb7aa, hooks off): 5 with the short key sizes 1 / 2 / 3 / 12 / 16 (every length class of the bloom hash below 17 bytes) and a bloom filter each, 3 with key sizes 32 / 128 / 8 and timestamps from {0, 1, 3, 2^33+5, 2^33+6, u64::MAX-1, u64::MAX}, 9 small ones with key sizes 4/8/33, bloom none / 100-bit / 1237-bit / 80 000-bit, group sizes 2-8, 2-4 blobs, deletion markers, metadata, values across both write-path thresholds, and 3 'tree' directories (key sizes 8/33/400, 245-533 records over 2-3 blobs) whose index files have one to three levels of inner B+tree nodes; each with expected.json recording every answer the pinned code gave (read, contains, read_all_with_deletion_marker with every entry loaded, read_with x 3 metas, counts). Enumerated exhaustively: every subset of removed index files x eager/lazy init; opening with each other key size (with and without index files); opening with ANOTHER bloom configuration than the files were written with (off <-> on, other size), optionally writing and closing group-size + 2 new blobs under it and reopening lazily - every recorded answer must still hold; version bump of every blob header; version bump of every index header. Oracle: answers equal expected.json for every present/absent index combination - with the filters as loaded and again after off-loading the bloom buffers (level 0, then all levels), so that in-file filter probing of pinned index files is exercised - and after an index-version bump (the index is regenerated); index files rebuilt by the current code are byte-identical to the ones the pinned code wrote; a bumped blob version makes init fail; another key size never yields a successful read (init error, or everything quarantined with records_count 0). Non-trivial = at least one index removed or a mutation applied. distinct = FNV hash of the serialized case; the enumeration is complete for this corpus.".into(),
         assumptions: {
             let mut a = common_assumptions();
             a.push("covers only formats the pinned tree can write; the corpus is small by construction (tools/corpusgen is its generator, kept for provenance)".into());
